@@ -356,7 +356,7 @@ pub open spec fn live_limit_post(rx0: &Rx, rx1: &Rx, limit: Option<usize>, done:
         g = g.push(frame);
         assert(g.drop_last() =~= g0);
     }
-//@@ before_stmt?: if let Some(limit) = limit
+//@@ after?: if tx.send(frame).await.is_err() { break; }
     proof {
         sn = sn.push(frame);
     }
